@@ -111,6 +111,10 @@ def run_stream(out, stream, cases, via_bridge=False):
     enc = encode(cases)
     dgrams = [d for d, _ in enc]; ex = [e for _, e in enc]
     io = asyncio.run(through_bridge(dgrams)) if via_bridge else [impl(d) for d in dgrams]
+    if via_bridge and "not delivered" in io:
+        k = io.index("not delivered")        # UDP under load: everything from the first undelivered datagram on is sent once more,
+        j = max(k - 1, 0)                    # together with the datagram before it (what precedes a broadcast must not matter)
+        io[k:] = asyncio.run(through_bridge(dgrams[j:]))[k - j:]
     mo = lib.run_model([lib.req("bcast", d) for d in dgrams])
     lib.differential(out, stream, cases, io, mo, ex, describe, sample=lambda c: describe(c)[:300],
                      classify=lambda c, i: c["desc"][0] + ("/on" if c["desc"][1] else "/off"))
